@@ -362,6 +362,11 @@ func judge(cr *callResult, res *hx.Result) {
 	}
 
 	outs := cr.resp.Out
+	if len(outs) == 1 && outs[0].RK == "environment-rejected" {
+		res.Dist("outcome=environment-rejected-by-ReadEnvironment")
+		res.Eval(c.key(), false)
+		return
+	}
 	nontrivial := false
 	for i, out := range outs {
 		entry := [...]string{"Template", "TemplateValue", "run.EvaluateTemplate", "run.EvaluateTemplateValue"}[i%4]
